@@ -1654,6 +1654,7 @@ func (n *node) Creation() int64 {
 }
 
 func (n *node) sendExitMessage(from gen.PID, to gen.PID, message any) error {
+	lib.VerifPoint("exit.send", [2]gen.PID{from, to})
 	lib.VerifPoint("exit.load", to)
 	value, loaded := n.processes.Load(to)
 	if loaded == false {
